@@ -100,12 +100,25 @@ def load_known(prop):
     return known, fixed
 
 
+def _bigframe(f):
+    return f()
+
+
+# CPython >= 3.11 keeps frames on a per-thread data stack made of 16 KiB chunks that are
+# mmap'ed/munmap'ed every time the call depth crosses a chunk boundary.  hidc's coroutine
+# parser oscillates across such a boundary constantly (40k mmap/munmap pairs per shard),
+# and the resulting page faults serialise badly when 16 workers run.  Running the whole
+# workload under one frame with a huge declared stack size makes CPython allocate a single
+# large chunk that all nested frames then share.
+_bigframe.__code__ = _bigframe.__code__.replace(co_stacksize=200000)
+
+
 def _worker(args):
     modname, desc, seed, tier = args
     try:
         sys.setrecursionlimit(10000)
         mod = __import__('props.' + modname, fromlist=['x'])
-        st = mod.run_shard(desc, seed, tier)
+        st = _bigframe(lambda: mod.run_shard(desc, seed, tier))
         return ('ok', st)
     except BaseException:
         return ('err', traceback.format_exc())
@@ -159,7 +172,7 @@ def main(mod, argv=None):
     try:
         if replay_file is not None:
             case = json.load(open(replay_file))
-            msg = mod.replay(case)
+            msg = _bigframe(lambda: mod.replay(case))
             if msg:
                 print('replay: property violated:', msg)
                 print('VIOLATION property=%s replay=%s' % (prop, replay_file))
@@ -173,7 +186,7 @@ def main(mod, argv=None):
         nreg = 0
         for path, case in regress_cases(prop):
             nreg += 1
-            msg = mod.replay(case)
+            msg = _bigframe(lambda: mod.replay(case))
             if msg:
                 fid = case.get('known_id')
                 if fid and fid in known:
